@@ -186,7 +186,7 @@ class Sched:
 
     def dur(self, n):
         if not n.comp:
-            return n.dur0
+            return expected_duration(n.kind, self.cfg)
         ls = n.leaves()
         if not ls:
             return 0.0
@@ -228,7 +228,7 @@ class Sched:
     def end(self, n):
         if n.comp:
             return self.start_of_block_content(n) + self.dur(n)
-        return self.start(n) + n.dur0
+        return self.start(n) + self.dur(n)
 
 
 def model_build(prog, cfg, rep=1):
@@ -254,7 +254,7 @@ def model_rows(comp, sched):
     sched.reset()
     out = []
     for n in comp.leaves():
-        out.append((class_name(n.kind), tuple(n.fp()), round(sched.start(n), 9), round(sched.start(n) + n.dur0, 9)))
+        out.append((class_name(n.kind), tuple(n.fp()), round(sched.start(n), 9), round(sched.start(n) + sched.dur(n), 9)))
     return out
 
 
